@@ -13,6 +13,7 @@
 EXTENDS TLC, FiniteSets, Sequences, Naturals, Json, IOUtils, SequencesExt
 CONSTANT DumpCases
 
+\* ("doc": for every second case the documentation and a lint attribute are written as INNER attributes, inside the trait's braces)
 Comps == {"doc", "lint", "pubvis", "unsafe", "generics", "supertrait", "where", "default-body", "assoc-type", "method-attr", "method-cfg", "async", "two-methods"}
 OptSets == {"none", "unimock", "mockall", "ref", "borrow", "static-di", "dyn-di", "async_trait"}
 \* the shape of the generic parameter list (when there is one): one type parameter; a const parameter declared
